@@ -31,6 +31,13 @@
                                ans=0 nothing is (TimedOut)   -> n wk1..wkn
                    3 t i       drop sleep i                 -> 0
            result: 0, step outputs, n, deadline slots left in the wheel.
+   mode 6  [6; drv; traffic; extra; k; (d, kind) * k]  k timers (deadline slot d,
+           kind 0 sleep_until / 1 timeout_at / 2 timeout / 3 sleep) next to a task
+           that keeps completions flowing (traffic 0 pipe ping-pong, 1 socketpair
+           ping-pong, 2 cross-thread wakes, 3 spawn_blocking results, 4 inline file
+           ops) until well after the last deadline.  The model polls the driver
+           once per 10 ms unit, every poll answers DOk; result: 0, per timer
+           1 (fired at the first turn at/after its deadline) | 81, wheel length.
    mode 5  [5; lead_s; lead_ns; per_s; per_ns; c]  Interval starting `lead` in the
            future whose first tick is cancelled c times: the deadline of every
            one of those ticks, read back from the wheel, is start.            *)
@@ -576,6 +583,71 @@ Definition run_f (l : list N) : option (list N) :=
   end.
 
 (* ---------------------------------------------------------------------- *)
+(* mode 6: timers while other tasks keep the driver busy                    *)
+
+Fixpoint dec_timers (n : nat) (l : list N) : option (list (N * N) * list N) :=
+  match n with
+  | O => Some ([], l)
+  | S n' =>
+    match l with
+    | d :: kind :: r =>
+      if (d <=? 5)%N && (kind <=? 3)%N then
+        let? '(s, r') := dec_timers n' r in Some ((d, kind) :: s, r')
+      else None
+    | _ => None
+    end
+  end.
+
+(* the wheel after every turn of a loop whose polls all find a completion *)
+Fixpoint traffic_states (w : wheel) (ts : list Z) : R (list (Z * wheel)) :=
+  match ts with
+  | [] => Ok []
+  | t :: r =>
+    let! '(_, _, w1) := loop_iter true DOk t t w in
+    let! rest := traffic_states w1 r in
+    Ok ((t, w1) :: rest)
+  end.
+
+Fixpoint new_sleeps (ds : list (N * N)) (w : wheel) : R (list (Z * sleep) * wheel) :=
+  match ds with
+  | [] => Ok ([], w)
+  | (d, _) :: r =>
+    let! '(s, w1) := sleep_new 0 (qd d) w in
+    let! '(ss, w2) := new_sleeps r w1 in
+    Ok ((qd d, s) :: ss, w2)
+  end.
+
+(* complete after a turn exactly when the turn's clock has reached the deadline *)
+Definition traffic_code (states : list (Z * wheel)) (ds : Z * sleep) : N :=
+  let '(dl, s) := ds in
+  if forallb (fun st : Z * wheel => Bool.eqb (fst (sleep_poll s 0%N (snd st))) (dl <=? fst st)) states
+  then 1%N else 81%N.
+
+Definition run_t (l : list N) : option (list N) :=
+  match l with
+  | drv :: tk :: extra :: k :: r =>
+    if (1 <? drv)%N || (4 <? tk)%N || (20 <? extra)%N || (k =? 0)%N || (4 <? k)%N then None else
+    let? '(ds, rest) := dec_timers (nn k) r in
+    match rest with
+    | [] =>
+      let maxd := fold_right (fun x m => N.max (fst x) m) 0%N ds in
+      let turns := map Z.of_nat (seq 1 (nn (4 * maxd + 30 + extra))) in
+      match new_sleeps ds wheel_new with
+      | Panic c => Some (enc_panic c)
+      | Ok (ss, w) =>
+        match traffic_states w turns with
+        | Panic c => Some (enc_panic c)
+        | Ok states =>
+          let final := match rev states with (_, wf) :: _ => wf | [] => w end in
+          Some ([0%N] ++ map (traffic_code states) ss ++ [NN (length (wmap final))])
+        end
+      end
+    | _ => None
+    end
+  | _ => None
+  end.
+
+(* ---------------------------------------------------------------------- *)
 
 Definition run_c09 (l : list N) : list N :=
   match l with
@@ -584,5 +656,6 @@ Definition run_c09 (l : list N) : list N :=
   | 3%N :: r => match run_i r with Some o => o | None => BAD_CASE end
   | 4%N :: r => match run_l r with Some o => o | None => BAD_CASE end
   | 5%N :: r => match run_f r with Some o => o | None => BAD_CASE end
+  | 6%N :: r => match run_t r with Some o => o | None => BAD_CASE end
   | _ => BAD_CASE
   end.
